@@ -119,7 +119,7 @@ package immutable
 //@   ghostparam h fp.Hashable[K]
 //@   option summary
 //@   option assumerec=mergeIntoNode
-//@   option timeout=240
+//@   option timeout=240 lockbudget=150
 //@   requires node != nil && node.keyHashValue() != keyHash && shift <= 30 && shift%5 == 0
 //@   requires (node.keyHashValue() >> shift) != (keyHash >> shift)
 //@   requires veriflaws.HashLaws(h) && leafWF(node, h) && keyHash == h.Hash(key) && (forall s uint :: Rec_nodeWF(mapNode[K, V](node), s, h))
@@ -146,7 +146,7 @@ package immutable
 //@   loop 0 invariant 0 <= i && i < len(n.entries) && (forall j int :: 0 <= j && j < i ==> !h.Eqv(n.entries[j].key, key))
 //@   loop 0 decreases len(n.entries) - i
 //
-//@ include internal/verifspec/hamtnode.contracts HEAD=func·(*mapArrayNode). OPTS=option·assume=indexOf,mergeIntoNode·timeout=40 DOPTS=option·note=none SOPTS=option·note2=none SOPTS2=option·note3=none
+//@ include internal/verifspec/hamtnode.contracts HEAD=func·(*mapArrayNode). OPTS=option·assume=indexOf,mergeIntoNode·timeout=40·lockbudget=150 DOPTS=option·note=none SOPTS=option·note2=none SOPTS2=option·note3=none
 //
 //@ func (*mapArrayNode).set(n, key, value, shift, keyHash, h, mutable, resized) result
 //@   loop 0 invariant 0 <= idx_ && idx_ < len(n.entries) && node != nil && *resized && Rec_nodeWF(node, 0, h)
